@@ -356,7 +356,10 @@ impl S3 {
                 _ => return None,
             })
         }));
-        attrs::FAULT.with(|f| f.set(0));
+        // (not a force op: leave the fault countdown armed for `run_single`)
+        if !matches!(r, Ok(None)) {
+            attrs::FAULT.with(|f| f.set(0));
+        }
         match r {
             Err(_) => Some("panic".into()),
             Ok(x) => x,
